@@ -85,7 +85,8 @@ def run(ctx, tier):
                  ("D2", "pointer/length parameters are paired"),
                  ("D3", "free-function wrappers make exactly the calls of the C++ operation (input with its base)"),
                  ("F1", "alloc / access / free types agree"),
-                 ("H1", "header and implementation agree")):
+                 ("H1", "header and implementation agree"),
+                 ("G2", "no wrapper hands out the address of function-local, static or thread-local storage")):
         ctx.rule(r, t)
     cfgs = C.configs_for(tier, thorough=["release", "devchecks", "amalgamated", "nopattern"])
     fxs = C.load_configs(ctx, cfgs + ["c_header"])
@@ -114,7 +115,56 @@ def handle_locals(f):
     return out
 
 
+def check_returned_storage(ctx, fx):
+    """G2.  What a wrapper returns must live as long as the C++ operation's result: inside the handle's object, in a fresh
+    allocation the caller owns, or in a string literal.  The address of a local / static / thread_local variable, or the
+    data() of a std::string local, is either dangling or one buffer shared by every handle."""
+    n = 0
+    for f in cfuncs(fx):
+        if "blocks" not in f:
+            continue
+        locs = {}
+        for b in f["blocks"]:
+            for st in b["stmts"]:
+                if st["k"] == "decl":
+                    for v in st["vars"]:
+                        locs[v["id"]] = v
+        for b in f["blocks"]:
+            for st in b["stmts"]:
+                if st["k"] != "return" or st.get("e") is None:
+                    continue
+                n += 1
+                bad = []
+                # only what flows into the returned value: the expression itself and the pointer argument of ada_string_create
+                e0 = X.strip(st["e"])
+                flows = [e0]
+                if isinstance(e0, dict) and e0.get("k") == "call" and e0.get("name") == "ada_string_create" and e0.get("args"):
+                    flows = [X.strip(e0["args"][0])]
+                for nd in flows:
+                    if not isinstance(nd, dict):
+                        continue
+                    # &local  (any storage class)
+                    if nd.get("k") == "un" and nd.get("op") == "&":
+                        t = X.strip(nd["e"])
+                        if isinstance(t, dict) and t.get("k") == "ref" and t.get("kind") in ("local", "static_local", "global"):
+                            bad.append("address of the %s variable `%s`" % ("static/thread-local" if t.get("kind") != "local" or
+                                                                            "static" in (locs.get(t.get("id"), {}).get("storage") or "") else "local", t.get("name")))
+                    # data() of an owning local string
+                    if nd.get("k") == "call" and nd.get("name") in ("data", "c_str") and nd.get("recv") is not None:
+                        t = X.strip(nd["recv"])
+                        if isinstance(t, dict) and t.get("k") == "ref" and t.get("kind") in ("local", "static_local"):
+                            ty = (t.get("ty") or "").replace("const ", "")
+                            if ty.startswith(("std::string", "std::basic_string<")) and "view" not in ty and "&" not in ty:
+                                bad.append("data() of the owning local string `%s`" % t.get("name"))
+                ctx.check("G2", "%s: `%s`" % (f["name"], X.show(st["e"])[:60]), not bad, "handle-owned, freshly allocated or literal",
+                          "the wrapper returns the %s: the C++ operation returns a reference/view into the URL object that stays valid and "
+                          "tracks it; this pointer is dangling or shared by every handle" % "; ".join(bad),
+                          where=(st.get("loc") or "").replace("/repo/", ""))
+    ctx.floor("G2", n, 100, "return statements of the C wrappers")
+
+
 def check(ctx, fx, hx):
+    check_returned_storage(ctx, fx)
     fs = cfuncs(fx)
     ctx.floor("H1", len(fs), 79, "extern \"C\" ada_* function definitions")
     byname = {f["name"]: f for f in fs}
